@@ -9,7 +9,7 @@ SPEC_MODE = "spec"
 KEEP_PREFIX = 0
 SIZES = {"quick": 6000, "thorough": 100000}
 BATCH = 4000
-EXTRA_MODULES = ("Sentinel.Lemmas.Chain", "Sentinel.Lemmas.ChainSim")
+EXTRA_MODULES = ("Sentinel.Lemmas.Chain", "Sentinel.Lemmas.ChainSim", "Sentinel.Lemmas.ChainExtra")
 RULE = ("1-4 real base.SlotChain objects per case assembled by Add*Slot from 0-9 (6 % of chains: 13-48) recording slots per kind, order values drawn from a "
         "small colliding pool incl. 0 and 2^32-1 (35 % of chains additionally get order 0 / MaxUint32 / MaxUint32-1 slots added to non-empty buckets, 35 % a ShouldWait(0 or >0) rule slot placed before or on the order of a blocking one); rule slots pass / return nil / ShouldWait / panic / block (fresh result, pooled "
         "ctx.RuleCheckResult, slot-owned reused result) with block types 0-255; prepare and rule slots may register exit handlers "
